@@ -155,13 +155,58 @@ func (e *Engine) modelSync(p *Path, fn *ssa.Function, full string, args []Value,
 		}
 		return e.one(p, e.zeroResult(p, rt)), true
 	case "*sync.WaitGroup":
-		e.used("sync.WaitGroup (Wait = run every pending goroutine to completion)")
-		if name == "Wait" {
-			e.runPending(p, depth)
-			return e.one(p, nil), true
-		}
+		e.used("sync.WaitGroup (counter kept in the object; Wait runs pending goroutines, oldest first, until the counter is zero)")
 		if name == "Go" {
 			return nil, false
+		}
+		recvp := e.asPtr(args[0])
+		if !e.derefCheck(p, recvp, "WaitGroup") {
+			return nil, true
+		}
+		cnt := Ptr{}
+		for _, al := range recvp.alts {
+			cnt.alts = append(cnt.alts, PtrAlt{al.g, al.obj, al.off, append(append([]int(nil), al.path...), 2)})
+		}
+		switch name {
+		case "Add":
+			d := asTerm(args[1])
+			e.store(p.st, cnt, e.Bin(OpAdd, asTerm(e.load(p.st, cnt)), e.Extract(d, 31, 0)))
+			return e.one(p, nil), true
+		case "Done":
+			e.store(p.st, cnt, e.Bin(OpSub, asTerm(e.load(p.st, cnt)), e.Const(32, 1)))
+			return e.one(p, nil), true
+		case "Wait":
+			var out []Result
+			work := []*State{p.st}
+			guard := 0
+			for len(work) > 0 {
+				st := work[len(work)-1]
+				work = work[:len(work)-1]
+				for {
+					guard++
+					if guard > 20000 {
+						unsup("WaitGroup.Wait: no progress")
+					}
+					c := asTerm(e.load(st, cnt))
+					if !c.IsConst() {
+						unsup("WaitGroup counter is symbolic")
+					}
+					if c.val == 0 {
+						out = append(out, Result{st, nil})
+						break
+					}
+					if len(st.tasks) == 0 {
+						panic(blockedErr{"WaitGroup.Wait would block forever"})
+					}
+					sts := e.runOneTask(st, depth)
+					if len(sts) == 0 {
+						break
+					}
+					work = append(work, sts[1:]...)
+					st = sts[0]
+				}
+			}
+			return out, true
 		}
 		return e.one(p, nil), true
 	case "*sync.Pool":
